@@ -66,7 +66,7 @@ def run(ctx):
             keep = ctx.save_replay(v.bad.split("(")[0], {"clause": v.bad, "trace_line": v.line, "notes": notes,
                                                           "schedule_trace": [json.loads(x) for x in lines[start:v.line]]})
             ctx.violation(v.bad, keep, "EventProp clause %s broken at trace line %d: %s" % (v.bad, v.line, lines[v.line - 1][:400]))
-            break
+            return
     for need in ("lookup-pending", "backend-held", "wait", "http-ingested", "mode:forwarder", "mode:standalone", "B=0", "B=2"):
         if named.get(need, 0) == 0:
             raise vlib.MachineryError("vacuity: %s never reached" % need)
